@@ -357,9 +357,9 @@ func commaLed(p *parser, t *token, left *token) *token {
 }
 
 func getType(p *parser) *token {
-	p.Depth++
-	defer func() { p.Depth-- }()
-	if p.Depth > maxNesting {
+	p.nest++
+	defer func() { p.nest-- }()
+	if p.nest > maxNesting {
 		panicf("nested more than %d levels deep", maxNesting)
 	}
 	t := p.Token
